@@ -18,6 +18,10 @@ struct Mon {
     expand: bool,
     case: MacCase,
     secondary: bool,
+    /// the level the network last commanded, followed independently of the device: the H1 value as it stood after
+    /// the last operation that could legitimately change it (a join, a restore, an operation in which a frame was
+    /// heard that the reference does not reject); `None` until the first operation
+    tracked: Option<Option<u8>>,
 }
 
 fn usable_for_dr(region: RegionId, s: &Snap, dr: u8) -> bool {
@@ -34,7 +38,7 @@ fn usable_for_dr(region: RegionId, s: &Snap, dr: u8) -> bool {
     }
 }
 
-fn check_tx(w: &World, rec: &OpRecord, stats: &mut RunStats) -> Option<Violation> {
+fn check_tx(w: &World, rec: &OpRecord, stats: &mut RunStats, tracked: Option<u8>) -> Option<Violation> {
     let (region, board, join_bias) = {
         let e = w.env.borrow();
         (e.cfg.region, BOARDS[e.cfg.board as usize % BOARDS.len()], e.cfg.join_bias)
@@ -120,6 +124,16 @@ fn check_tx(w: &World, rec: &OpRecord, stats: &mut RunStats) -> Option<Violation
             }
             stats.bump("probe.commanded-power-in-force");
         }
+        if let (false, Some(cmd)) = (is_join, tracked) {
+            // the device's own record of the commanded level has changed since the network last had a say
+            if pw > cmd as i32 {
+                return Some(Violation::new(
+                    "C09.power-above-commanded",
+                    &format!("{region:?}|limit-forgotten"),
+                    format!("{ctx}: above the level the network last commanded ({cmd} dBm); the device's own record of that level became {:?} in an operation without any command from the network", snap.tx_power),
+                ));
+            }
+        }
         stats.bump("probe.tx-checked");
     }
     None
@@ -139,7 +153,30 @@ impl Monitor for Mon {
         if let Some((kind, detail, msg)) = take_stack_alert(w, &["tx-config", "tx-power", "tx-unrequested"]) {
             return Some(Violation::new(&format!("C09.chip-{kind}"), &detail, format!("full stack (real lora-phy on a simulated chip): {msg}")));
         }
-        check_tx(w, rec, stats)
+        let before = rec.snap_before.as_ref().map(|s| s.tx_power);
+        if self.tracked.is_none() {
+            self.tracked = before;
+        }
+        let v = check_tx(w, rec, stats, self.tracked.flatten());
+        if let Some(after) = rec.snap_after.as_ref().map(|s| s.tx_power) {
+            let heard = {
+                let e = w.env.borrow();
+                e.delivered[rec.del_lo..rec.del_hi].iter().any(|d| !matches!(d.verdict, crate::world::Verdict::Reject(_)))
+            };
+            let legit = heard || !matches!(rec.op, Op::Send { .. } | Op::SetDr(_) | Op::SetAdr(_));
+            let tighter = match (after, self.tracked.flatten()) {
+                (Some(a), Some(t)) => a <= t,
+                (Some(_), None) => true,
+                (None, None) => true,
+                (None, Some(_)) => false,
+            };
+            if legit || tighter {
+                self.tracked = Some(after);
+            } else {
+                stats.bump("probe.commanded-power-loosened-without-command");
+            }
+        }
+        v
     }
 
     fn at_end(&mut self, _w: &mut World, stats: &mut RunStats) -> Option<Violation> {
@@ -150,7 +187,7 @@ impl Monitor for Mon {
         let last_tx = self.case.ops.iter().rposition(|o| matches!(o, Op::Send { .. } | Op::Join(_)))?;
         for v in 0..64u32 {
             let mut w2 = World::new(&self.case.cfg);
-            let mut sub = Mon { expand: false, case: self.case.clone(), secondary: true };
+            let mut sub = Mon { expand: false, case: self.case.clone(), secondary: true, tracked: None };
             for (idx, op) in self.case.ops.iter().enumerate().take(last_tx + 1) {
                 if idx == last_tx {
                     let mut e = w2.env.borrow_mut();
@@ -239,7 +276,7 @@ impl Property for C09 {
         self.own_generate(seed, run, tier, avoid)
     }
     fn execute(&self, case: &MacCase, want_trace: bool) -> Outcome {
-        let mut mon = Mon { expand: case.knob == 1 && case.ops.len() < 60, case: case.clone(), secondary: false };
+        let mut mon = Mon { expand: case.knob == 1 && case.ops.len() < 60, case: case.clone(), secondary: false, tracked: None };
         let out = run_case(case, &mut mon, want_trace);
         Outcome { violation: out.violation, stats: out.stats, trace: out.trace }
     }
